@@ -226,6 +226,51 @@ def handleI (s : Slave) (i : Nat) (buf : List Nat) : Slave × Bool :=
               (s.setConn i { s.conn i with nextT3 := s.now + s.p.t3 * 1000 }, true)
           else (s, false)
 
+/-- every accepted message restarts the T3 supervision -/
+def t3upd (s : Slave) (i : Nat) : Slave := s.setConn i { s.conn i with nextT3 := s.now + s.p.t3 * 1000 }
+
+/-- TESTFR act -/
+def hmTestFR (s : Slave) (i : Nat) : Slave × Bool :=
+  let (s, ok) := write s i TESTFR_CON
+  if ok then (t3upd s i, true) else (s, false)
+
+/-- STARTDT act -/
+def hmStartDT (s : Slave) (i : Nat) : Slave × Bool :=
+  let s := activate s i
+  let g := s.grp (s.gidx i)
+  let s := s.setGrp (s.gidx i) { g with highQ := g.highQ.reset }
+  let (s, ok) := write s i STARTDT_CON
+  if ok then (t3upd s i, true) else (s, false)
+
+/-- STOPDT act -/
+def hmStopDT (s : Slave) (i : Nat) : Slave × Bool :=
+  let s := deactivate s i
+  let c := s.conn i
+  let s := if c.unconf > 0 then
+      sendS (s.setConn i { c with lastConf := some s.now, unconf := 0, t2Triggered := false }) i
+    else s
+  if hasUnconfirmed s i then (t3upd s i, true)
+  else
+    let s := s.setConn i { s.conn i with state := 0 }
+    let (s, ok) := write s i STOPDT_CON
+    if ok then (t3upd s i, true) else (s, false)
+
+/-- S-format APDU -/
+def hmS (s : Slave) (i : Nat) (buf : List Nat) : Slave × Bool :=
+  let nr := (buf.getD 4 0 + buf.getD 5 0 * 0x100) / 2
+  let (s, ok) := checkSeqConn s i nr
+  if !ok then (s, false)
+  else
+    let c := s.conn i
+    if c.state = 2 then
+      if !hasUnconfirmed s i then
+        let s := s.setConn i { c with state := 0 }
+        let (s, ok) := write s i STOPDT_CON
+        if ok then (t3upd s i, true) else (s, false)
+      else (t3upd s i, true)
+    else if c.state = 0 then (s, false)
+    else (t3upd s i, true)
+
 /-- `handleMessage`: false = close the connection -/
 def handleMessage (s : Slave) (i : Nat) (buf : List Nat) : Slave × Bool :=
   let n := buf.length
@@ -234,44 +279,12 @@ def handleMessage (s : Slave) (i : Nat) (buf : List Nat) : Slave × Bool :=
   else if buf.getD 1 0 != n - 2 then (s, false)
   else
     let b2 := buf.getD 2 0
-    let t3 (s : Slave) : Slave := s.setConn i { s.conn i with nextT3 := s.now + s.p.t3 * 1000 }
     if b2 &&& 1 == 0 then handleI s i buf
-    else if b2 &&& 0x43 == 0x43 then
-      let (s, ok) := write s i TESTFR_CON
-      if ok then (t3 s, true) else (s, false)
-    else if b2 &&& 0x07 == 0x07 then
-      let s := activate s i
-      let g := s.grp (s.gidx i)
-      let s := s.setGrp (s.gidx i) { g with highQ := g.highQ.reset }
-      let (s, ok) := write s i STARTDT_CON
-      if ok then (t3 s, true) else (s, false)
-    else if b2 &&& 0x13 == 0x13 then
-      let s := deactivate s i
-      let c := s.conn i
-      let s := if c.unconf > 0 then
-          sendS (s.setConn i { c with lastConf := some s.now, unconf := 0, t2Triggered := false }) i
-        else s
-      if hasUnconfirmed s i then (t3 s, true)
-      else
-        let s := s.setConn i { s.conn i with state := 0 }
-        let (s, ok) := write s i STOPDT_CON
-        if ok then (t3 s, true) else (s, false)
-    else if b2 &&& 0x83 == 0x83 then
-      (t3 (s.setConn i { s.conn i with waitingTestFR := false }), true)
-    else if b2 == 0x01 then
-      let nr := (buf.getD 4 0 + buf.getD 5 0 * 0x100) / 2
-      let (s, ok) := checkSeqConn s i nr
-      if !ok then (s, false)
-      else
-        let c := s.conn i
-        if c.state = 2 then
-          if !hasUnconfirmed s i then
-            let s := s.setConn i { c with state := 0 }
-            let (s, ok) := write s i STOPDT_CON
-            if ok then (t3 s, true) else (s, false)
-          else (t3 s, true)
-        else if c.state = 0 then (s, false)
-        else (t3 s, true)
+    else if b2 &&& 0x43 == 0x43 then hmTestFR s i
+    else if b2 &&& 0x07 == 0x07 then hmStartDT s i
+    else if b2 &&& 0x13 == 0x13 then hmStopDT s i
+    else if b2 &&& 0x83 == 0x83 then (t3upd (s.setConn i { s.conn i with waitingTestFR := false }) i, true)
+    else if b2 == 0x01 then hmS s i buf
     else (s, true)
 
 /-- `receiveMessage` on the reassembly state alone (receive buffer, socket): after the repair
